@@ -5,6 +5,7 @@ import (
 
 	"github.com/Comcast/sheens/core"
 	"github.com/Comcast/sheens/interpreters/ecmascript"
+	"github.com/Comcast/sheens/verifrt/actlang"
 	"github.com/Comcast/sheens/verifrt/vh"
 )
 
@@ -13,5 +14,7 @@ func TestMain(m *testing.M) {
 	ext := ecmascript.NewInterpreter()
 	ext.Extended = true
 	core.DefaultInterpreters["ecmascript-ext"] = ext
+	// an interpreter written in Go (its sources are programs of the action language)
+	core.DefaultInterpreters["gonative"] = actlang.GoInterp{}
 	vh.Main(Checks)
 }
